@@ -321,3 +321,27 @@ def run(ctx, R):
             R.ob("C03:operand-fetch:%s" % short(fn), bool(fetch) and not other_fetch,
                  "fetch via %s, other %s" % (sorted(short(c) for c in fetch), sorted(other_fetch)), F.where(fn))
     R.floor("*_instr functions", n_instr, 41)
+    is_always_evaluates(F, R)
+
+
+def is_always_evaluates(F, R):
+    """T is E written in a clause body: whatever T is, E is evaluated (and its errors raised) before the goal can fail,
+    as it is when the goal is built at run time and reaches is/2 through call/N. The compiler specialises is/2 on the shape
+    of T; every branch of that specialisation must compile the expression."""
+    fn = [p for p in F.items if p.endswith("::compile_is_call") and F.items[p]["file"] == "src/codegen.rs"]
+    if len(fn) != 1:
+        raise AnchorLost("CodeGenerator::compile_is_call (%d)" % len(fn))
+    body = F.hir(fn[0])["body"]
+    ms = [m for m in matches_in(body, src=None) if m["scrut"].get("k") == "Index" or any(x.get("k") == "Index" for x in walk(m["scrut"]))]
+    ms = [m for m in ms if len(m["arms"]) >= 3]
+    if len(ms) != 1:
+        raise AnchorLost("compile_is_call: the match on the left-hand side term (%d)" % len(ms))
+    n = 0
+    for i, arm in enumerate(ms[0]["arms"]):
+        n += 1
+        evaluates = any(r.endswith("::compile_arith_expr") for _, r, _ in hir_calls(arm["body"]))
+        leaves = sorted({(res_name(l) or "").rsplit("::", 1)[-1] for l in walk(arm["pat"]) if isinstance(l, dict) and (res_name(l) or "").startswith("parser::ast::Term::")}) or ["_"]
+        R.ob("C03:is-compiled:left-side-%s:right-side-is-evaluated" % "|".join(leaves), evaluates,
+             "compile_is_call's arm for a left-hand side of shape %s (line %s) does not compile the right-hand side: `a is foo+1` in a clause body fails silently while "
+             "call((a is foo+1)) raises type_error(evaluable, foo/0); `f(x) is 1/0` fails instead of raising zero_divisor" % (leaves, arm["ln"]), F.where(fn[0]))
+    R.floor("shapes of the left-hand side of a compiled is/2", n, 3)
